@@ -6,6 +6,7 @@ import (
 	"math"
 
 	"github.com/gokrazy/rsync"
+	"github.com/gokrazy/rsync/internal/simhook"
 )
 
 const blockSize = 700 // rsync/rsync.h
@@ -20,6 +21,7 @@ func SumSizesSqroot(contentLen int64) rsync.SumHead {
 
 	// TODO: round this
 	blockLength := max(int32(math.Sqrt(float64(contentLen))), blockSize)
+	blockLength = simhook.BlockLength(contentLen, blockLength)
 
 	// * The checksum size is determined according to:
 	// *     blocksum_bits = BLOCKSUM_EXP + 2*log2(file_len) - log2(block_len)
